@@ -9,4 +9,5 @@ pub mod sio;
 pub mod refmodel;
 pub mod app;
 pub mod appgen;
+pub mod wire;
 pub mod engines;
